@@ -115,14 +115,17 @@ const (
 )
 
 const (
-	c12UserChords = "- name: UserA\n  meta:\n    display: ua\n  extends: MajorTriad\n  attributes:\n    - Perfect5\n    - Major9\n    - UA\n- name: UserB\n  meta:\n    display: ub\n  extends: ua\n  attributes:\n    - Major3\n    - Minor7\n- name: UserC\n  meta:\n    display: uc\n  extends: m7\n  attributes:\n    - Minor7\n    - Minor3\n- name: UserSeven\n  meta:\n    display: \"7\"\n  attributes:\n    - Perfect1\n    - Perfect4\n- name: MinorTriad\n  meta:\n    display: umin\n  attributes:\n    - Perfect1\n    - Minor3\n"
-	c12UserAttrs  = "- name: UA\n  degree: \"#11\"\n- name: UB\n  degree: \"b13\"\n"
-	c12UserDoc    = "- chord:\n    degree: \"1\"\n    name: \"ua\"\n  values:\n    - \"1\"\n- chord:\n    degree: \"4\"\n    name: \"UserB\"\n    base: \"5\"\n  values:\n    - \"1\"\n- chord:\n    degree: \"5\"\n    name: \"uc\"\n  values:\n    - \"1\"\n- chord:\n    degree: \"5\"\n    name: \"7\"\n  values:\n    - \"1\"\n- chord:\n    degree: \"2\"\n    name: \"m\"\n  values:\n    - \"1\"\n- chord:\n    degree: \"2\"\n    name: \"DominantSeventh\"\n  values:\n    - \"1\"\n"
+	c12UserChords  = "- name: UserA\n  meta:\n    display: ua\n  extends: MajorTriad\n  attributes:\n    - Perfect5\n    - Major9\n    - UA\n- name: UserB\n  meta:\n    display: ub\n  extends: ua\n  attributes:\n    - Major3\n    - Minor7\n- name: UserC\n  meta:\n    display: uc\n  extends: m7\n  attributes:\n    - Minor7\n    - Minor3\n- name: UserSeven\n  meta:\n    display: \"7\"\n  attributes:\n    - Perfect1\n    - Perfect4\n- name: MinorTriad\n  meta:\n    display: umin\n  attributes:\n    - Perfect1\n    - Minor3\n"
+	c12UserChords2 = "- name: UserA\n  meta:\n    display: ua\n  extends: MinorTriad\n  attributes:\n    - Minor7\n- name: UserD\n  meta:\n    display: ud\n  extends: UserA\n  attributes:\n    - Major9\n"
+	c12UserAttrs2  = "- name: UA\n  degree: \"b9\"\n- name: UC\n  degree: \"13\"\n"
+	c12UserAttrs   = "- name: UA\n  degree: \"#11\"\n- name: UB\n  degree: \"b13\"\n"
+	c12UserDoc     = "- chord:\n    degree: \"1\"\n    name: \"ua\"\n  values:\n    - \"1\"\n- chord:\n    degree: \"4\"\n    name: \"UserB\"\n    base: \"5\"\n  values:\n    - \"1\"\n- chord:\n    degree: \"5\"\n    name: \"uc\"\n  values:\n    - \"1\"\n- chord:\n    degree: \"5\"\n    name: \"7\"\n  values:\n    - \"1\"\n- chord:\n    degree: \"2\"\n    name: \"m\"\n  values:\n    - \"1\"\n- chord:\n    degree: \"2\"\n    name: \"DominantSeventh\"\n  values:\n    - \"1\"\n"
 )
 
 var (
-	c12DictOnce               sync.Once
-	c12ChordFile, c12AttrFile string
+	c12DictOnce                 sync.Once
+	c12ChordFile, c12AttrFile   string
+	c12ChordFile2, c12AttrFile2 string
 )
 
 // c12Args resolves the placeholders {CHORDS} and {ATTRS} to the user dictionary files of this run.
@@ -130,10 +133,12 @@ func c12Args(args []string) []string {
 	c12DictOnce.Do(func() {
 		c12ChordFile = writeTemp(cli.Scratch, "c12-chords.yml", c12UserChords)
 		c12AttrFile = writeTemp(cli.Scratch, "c12-attrs.yml", c12UserAttrs)
+		c12ChordFile2 = writeTemp(cli.Scratch, "c12-chords2.yml", c12UserChords2)
+		c12AttrFile2 = writeTemp(cli.Scratch, "c12-attrs2.yml", c12UserAttrs2)
 	})
 	r := make([]string, len(args))
 	for i, a := range args {
-		r[i] = strings.NewReplacer("{CHORDS}", c12ChordFile, "{ATTRS}", c12AttrFile).Replace(a)
+		r[i] = strings.NewReplacer("{CHORDS}", c12ChordFile, "{ATTRS}", c12AttrFile, "{CHORDS2}", c12ChordFile2, "{ATTRS2}", c12AttrFile2).Replace(a)
 	}
 	return r
 }
@@ -152,6 +157,14 @@ func c12Commands(thorough bool) []c12Cmd {
 		{"write-user", []string{"write", "--chord", chordFile, "--attr", attrFile}, c12UserDoc},
 		{"write-event-user", []string{"write", "event", "--chord", chordFile, "--attr", attrFile, "--track", "3"}, c12UserDoc},
 		{"write-conv-user", []string{"write", "conv", "-c", "cmt", "--chord", chordFile, "--attr", attrFile}, c12UserDoc},
+		// several dictionary files, the same names defined in both: the order of the flags decides, nothing else
+		{"info-chord-list-two-files", []string{"info", "chord", "list", "--chord", chordFile, "--chord", "{CHORDS2}", "--attr", attrFile, "--attr", "{ATTRS2}"}, ""},
+		{"info-chord-list-two-files", []string{"info", "chord", "list", "--chord", "{CHORDS2}", "--chord", chordFile, "--attr", "{ATTRS2}", "--attr", attrFile}, ""},
+		{"info-attr-list-two-files", []string{"info", "attr", "list", "--attr", attrFile, "--attr", "{ATTRS2}"}, ""},
+		{"info-chord-describe-two-files", []string{"info", "chord", "describe", "-t", "C_ua", "--chord", chordFile, "--chord", "{CHORDS2}", "--attr", attrFile, "--attr", "{ATTRS2}"}, ""},
+		{"info-chord-describe-two-files", []string{"info", "chord", "describe", "-t", "C_ud", "--chord", "{CHORDS2}", "--chord", chordFile, "--attr", "{ATTRS2}", "--attr", attrFile}, ""},
+		{"write-event-two-files", []string{"write", "event", "--chord", chordFile, "--chord", "{CHORDS2}", "--attr", attrFile, "--attr", "{ATTRS2}"}, c12UserDoc},
+		{"write-two-files", []string{"write", "--chord", "{CHORDS2}", "--chord", chordFile, "--attr", "{ATTRS2}", "--attr", attrFile}, c12UserDoc},
 		{"info-key-list", []string{"info", "key", "list"}, ""},
 		{"info-attr-list", []string{"info", "attr", "list"}, ""},
 		{"info-chord-list", []string{"info", "chord", "list"}, ""},
@@ -352,6 +365,11 @@ func c12IOEval(e *Env, c c12IOCase, base *runOut) {
 		stdin = "this is not the input"
 	}
 	outFile := ""
+	if c.Out == "same-file" {
+		// -o names the FILE the input is read from (rewriting a piece in place)
+		outFile = args[len(args)-1]
+		args = append(args, "-o", outFile)
+	}
 	if c.Out == "file" || c.Out == "existing-file" {
 		outFile = filepath.Join(dir, "out.bin")
 		args = append(args, "-o", outFile)
@@ -945,6 +963,9 @@ func runC12(e *Env) {
 					ios = append(ios, c12IOCase{c, in, out, dbg})
 				}
 			}
+			if in == "file" {
+				ios = append(ios, c12IOCase{c, in, "same-file", false})
+			}
 		}
 	}
 	mc.ParFor(len(ios), func(i int) {
@@ -952,7 +973,7 @@ func runC12(e *Env) {
 		e.R.Trace(1)
 		e.R.NonTrivial("io" + fmt.Sprint(i))
 	})
-	e.R.AddPart(ev.Part{Name: "io-paths", Enumerated: "every data-producing command x input by {stdin, -, FILE, stdin delivered in three pieces by a slow writer, FILE = a named pipe, FILE = /dev/stdin} (where it reads one) x output to {stdout, -o new file, -o existing longer file} x --debug {off, on}: result bytes and status equal to stdin->stdout", Executions: int64(len(ios)), Exhaustive: true})
+	e.R.AddPart(ev.Part{Name: "io-paths", Enumerated: "every data-producing command x input by {stdin, -, FILE, stdin delivered in three pieces by a slow writer, FILE = a named pipe, FILE = /dev/stdin} (where it reads one) x output to {stdout, -o new file, -o existing longer file, -o the input FILE itself} x --debug {off, on}: result bytes and status equal to stdin->stdout", Executions: int64(len(ios)), Exhaustive: true})
 
 	// ---- (4) supplementary, not deciding: repetition under GOMAXPROCS 1, 2, 16
 	var reps []c12Cmd
